@@ -28,6 +28,7 @@ EXPLANATION = ("a: the closure handed to thread::spawn in execute_rules_parallel
                "iterator loop whose only early exit propagates a worker panic; acquisitions of results / custom_functions / Facts.{"
                "undo_frames,data,fact_types} form an acyclic order with no same-object re-entrancy; chunk size is len.div_ceil("
                "max_threads) fed to chunks().")
+EXPLANATION += " c (added): the buffer the level's results are read from is created empty inside execute_rules_parallel (a buffer shared across levels re-reports earlier levels). b (added): an ordered map walked with .rev() is accepted as descending level order; joining through handles.into_iter().try_for_each(|h| h.join()..) is accepted."
 FLOORS = {"spawn_sites": 1, "lock_sites": 30}
 
 PE = "engine::parallel::ParallelRuleEngine"
